@@ -37,15 +37,21 @@ class C11(PropBase):
                       "in_progress_probe_ids", "sasl_multistep_completed", "bind_after_search_done", "terminated_by_unbind",
                       "terminated_by_notice", "custom_types_on_wire", "odd_integers_on_wire", "pdu_over_127", "pdu_over_255",
                       "entries_interleaved_two_searches", "empty_vs_absent_optional", "partial_drain", "refused_attempt_mid_conversation",
-                      "idle_probe")
+                      "idle_probe", "late_registration", "send_failed_while_encoding")
 
     def init_op(self, rng):
         customs = [t for t in ("CustomAuth", "CustomControl", "CustomFilter") if rng.random() < 0.35]
+        late = []
+        if customs and rng.random() < 0.5:
+            # some of the custom types are registered (on both sides) only in the middle of the conversation
+            late = [t for t in customs if rng.random() < 0.6]
+            customs = [t for t in customs if t not in late]
         pers = ("des", "uniform", "adversarial")[self.idx % 3]
         return {"op": "init", "real_stream": True,
                 "sessions": [{"name": "c", "role": "c", "peer": "s", "register": customs},
                              {"name": "s", "role": "s", "peer": "c", "register": customs}],
-                "customs": customs, "personality": pers, "odd_ints": rng.random() < 0.3,
+                "customs": customs, "late_customs": late, "personality": pers, "odd_ints": rng.random() < 0.3,
+                "bad_text": rng.choice([0.0, 0.0, 0.03]), "debug_logging": rng.random() < 0.25,
                 "big": rng.choice([0.03, 0.1, 0.3]), "huge": rng.choice([0.0, 0.0, 0.0, 0.01]),
                 "max_out": rng.choice([1, 2, 4, 8]), "term_p": rng.choice([0.0, 0.0, 0.01, 0.03]),
                 "attempt_p": rng.choice([0.0, 0.05, 0.15]),
@@ -65,13 +71,17 @@ class C11(PropBase):
 
     def _gen(self, st, rng):
         init = st.w.init
-        return Gen(rng, big=init["big"], huge=init["huge"], odd_ints=init["odd_ints"], customs=init["customs"])
+        return Gen(rng, big=init["big"], huge=init["huge"], odd_ints=init["odd_ints"],
+                   customs=list(init["customs"]) + list(st.x.get("registered_late", [])), bad_text=init.get("bad_text", 0.0))
 
     def _app_op(self, st, rng, who):
         w = st.w
         init = w.init
         g = self._gen(st, rng)
         se = w.s[who]
+        todo = [t for t in init.get("late_customs", []) if t not in st.x.get("registered_late", [])]
+        if todo and rng.random() < 0.06:
+            return {"op": "register", "type": rng.choice(todo)}
         attempt = init.get("attempt_p", 0.0)
         if who == "c":
             cc = policy.client_call(g, se.model, illegal_p=attempt, allow_unbind=init["term_p"], max_out=init["max_out"])
@@ -191,6 +201,19 @@ class C11(PropBase):
             self._deliver(st, op)
         elif k == "quiesce":
             self._quiesce(st)
+        elif k == "register":
+            # both applications register the custom type now (after traffic has already been exchanged)
+            from .. import customtypes as ct
+
+            typ = op.get("type")
+            if typ in ct.BY_NAME and typ not in st.x.setdefault("registered_late", []) and typ not in st.w.init["customs"]:
+                for who in ("c", "s"):
+                    ev = st.w.apply({"op": "call", "who": who, "m": ct.REGISTER_METHOD[typ], "a": {"type": typ}})
+                    if not ev.get("accepted"):
+                        raise Violation(P, "registration-refused/%s" % typ, "%s on the %s raised %s" % (ct.REGISTER_METHOD[typ], who, ev.get("exc")))
+                st.x["registered_late"].append(typ)
+                st.hit("late_registration")
+                st.label("register")
 
     def _joint(self, st):
         w = st.w
@@ -226,6 +249,9 @@ class C11(PropBase):
             return
         st.x["since_q"] += 1
         st.label("call:%s:%s" % (who, m))
+        if ev.get("arg_error"):
+            st.hit("send_failed_while_encoding")  # an argument that cannot be encoded: the attempt must leave no trace
+            return
         if not ev["accepted"]:
             self._bail(st, "premise broken: model-legal %s.%s refused: %s" % (who, m, ev["exc"]["msg"]))
             return
